@@ -873,4 +873,30 @@ theorem dedup_key_empty (K C : TagSet) : dedup_key K (RelAlg.empty C) = RelAlg.e
 theorem dedup_key_unit (K : TagSet) : dedup_key K RelAlg.unit = RelAlg.unit := by
   simp [dedup_key, dedupKeyRows, RelAlg.unit, dictSet]
 
+/-! ## the Sort arm: passes of a suffix of the terms -/
+
+theorem tsuffix_len (ts : Terms) (a : Int) :
+    (0 ≤ a ∧ a ≤ tlen ts) → tlen (tsuffix ts a) = tlen ts - a := by
+  rintro ⟨h0, h1⟩
+  simp only [tlen] at h1 ⊢
+  simp only [tsuffix, List.length_drop]
+  omega
+
+theorem tsuffix_zero (ts : Terms) : tsuffix ts 0 = ts := by
+  simp [tsuffix]
+
+theorem sort_suffix_split (ts : Terms) (a b : Int) (X : RS) :
+    (0 ≤ a ∧ a ≤ b ∧ b ≤ tlen ts) →
+    sort (tsuffix ts a) X = sort (tslice ts a b) (sort (tsuffix ts b) X) := by
+  rintro ⟨h0, h1, h2⟩
+  obtain ⟨n, rfl⟩ := Int.eq_ofNat_of_zero_le h0
+  obtain ⟨m, rfl⟩ := Int.eq_ofNat_of_zero_le (le_trans h0 h1)
+  have hnm : n ≤ m := by exact_mod_cast h1
+  simp only [sort, tsuffix, tslice, Int.toNat_natCast]
+  congr 1
+  have e : ts.drop n = (ts.take m).drop n ++ ts.drop m := by
+    conv_lhs => rw [← List.take_append_drop m ts]
+    rw [List.drop_append_of_le_length (by simp only [List.length_take]; simp only [tlen] at h2; omega)]
+  rw [e, sortRows_append]
+
 end RelAlg.Laws
